@@ -1,1 +1,126 @@
-fn main(){}
+//! hmc: handle model checker (engines A, A', A'' of DESIGN.md).
+mod explore;
+mod key;
+mod world;
+
+use explore::*;
+use world::*;
+
+#[global_allocator]
+static ALLOC: oracle::Oracle = oracle::Oracle;
+
+fn arg(name: &str, default: &str) -> String {
+    let a: Vec<String> = std::env::args().collect();
+    for i in 0..a.len() {
+        if a[i] == name && i + 1 < a.len() {
+            return a[i + 1].clone();
+        }
+    }
+    default.to_string()
+}
+fn flag(name: &str) -> bool {
+    std::env::args().any(|a| a == name)
+}
+
+fn parse_hist(s: &str) -> Vec<Op> {
+    // [["Root",0,0,2,4],["BClone",0,0,0,0],...]
+    let mut out = vec![];
+    let mut rest = s;
+    while let Some(i) = rest.find("[\"") {
+        let r = &rest[i + 2..];
+        let q = r.find('"').unwrap();
+        let name = &r[..q];
+        let r2 = &r[q + 1..];
+        let end = r2.find(']').unwrap();
+        let nums: Vec<usize> = r2[..end].split(',').filter(|x| !x.trim().is_empty()).map(|x| x.trim().parse::<usize>().unwrap()).collect();
+        out.push(Op::new(k_from_str(name).expect("unknown op"), nums[0], nums[1], nums[2], nums[3]));
+        rest = &r2[end..];
+    }
+    out
+}
+
+fn main() {
+    oracle::sys::install_crash_handlers();
+    oracle::quiet_panics();
+    let cmd = std::env::args().nth(1).unwrap_or_default();
+    let profile = if cfg!(debug_assertions) { "dbg" } else { "rel" };
+    let parity = arg("--parity", "even");
+    let t0 = std::time::Instant::now();
+    match cmd.as_str() {
+        "explore" => {
+            let root: Vec<usize> = arg("--root", "2,4").split(',').map(|x| x.parse().unwrap()).collect();
+            let shard: Vec<usize> = arg("--shard", "0/1").split('/').map(|x| x.parse().unwrap()).collect();
+            let cfg = Cfg {
+                root: (root[0], root[1]),
+                parity_odd: parity == "odd",
+                depth: arg("--depth", "3").parse().unwrap(),
+                maxh: arg("--handles", "3").parse().unwrap(),
+                max_roots: arg("--roots", "2").parse().unwrap(),
+                alphabet: alphabet_named(&arg("--alphabet", "full")),
+                ooc: !flag("--no-ooc"),
+                huge: !flag("--no-huge"),
+                perms: flag("--perms"),
+                probes: flag("--probes"),
+                oom_probes: flag("--oom-probes"),
+                oom_probe_depth: arg("--oom-probe-depth", "2").parse().unwrap(),
+                dedup: !flag("--no-dedup"),
+                shard: (shard[0], shard[1]),
+                max_states: arg("--max-states", "20000000").parse().unwrap(),
+                property: arg("--property", "C01"),
+            };
+            let config = format!("{}/{}/root={}:{}/depth={}/alphabet={}{}", profile, parity, cfg.root.0, cfg.root.1, cfg.depth, arg("--alphabet", "full"), if cfg.dedup { "" } else { "/no-dedup" });
+            // warm-up (untracked allocations of the runtime): one tiny exploration before the real one
+            {
+                let mut c2 = cfg.clone();
+                c2.depth = 1;
+                c2.perms = false;
+                c2.probes = false;
+                c2.oom_probes = false;
+                let mut e = Explorer::new(c2, "hmc", &config);
+                e.run();
+            }
+            let mut e = Explorer::new(cfg, "hmc", &config);
+            e.run();
+            let mut rep = e.finish_report();
+            if oracle::machinery_error() {
+                rep.machinery_error = Some("oracle allocator table overflow".into());
+            }
+            rep.extra.push(("wall_s".into(), format!("{:.3}", t0.elapsed().as_secs_f64())));
+            rep.print();
+        }
+        "replay" => {
+            // hmc replay '<history json>' [--parity odd] [--drop-order 2,0,1]
+            let hist = parse_hist(&std::env::args().nth(2).unwrap_or_default());
+            let cfg = Cfg { root: (0, 0), parity_odd: parity == "odd", depth: 0, maxh: 4, max_roots: 2, alphabet: !0, ooc: true, huge: true, perms: false, probes: false, oom_probes: false, oom_probe_depth: 0, dedup: true, shard: (0, 1), max_states: 0, property: "".into() };
+            oracle::begin_execution(cfg.parity_odd);
+            oracle::register_region(STATIC4.as_ptr() as usize, STATIC4.len(), REGION_STATIC);
+            let mut w = World::new();
+            let mut n = 0;
+            for op in &hist {
+                oracle::sys::set_crash_note(&format!("replaying {:?}", op));
+                w.step(*op);
+                w.check_state();
+                println!("step {:?}: panicked={} ret={} slots={:?}", op, w.last.panicked, w.last.ret, w.slots.iter().map(|s| s.as_ref().map(|s| (if s.h.is_b() { 'B' } else { 'M' }, s.h.len(), s.h.cap(), s.h.bytes().to_vec()))).collect::<Vec<_>>());
+                for v in w.vios.drain(..) {
+                    println!("  VIOLATION-DETAIL property={} case={} {}", v.property, v.case, v.msg);
+                    n += 1;
+                }
+            }
+            let order: Vec<usize> = match arg("--drop-order", "").as_str() {
+                "" => (0..MAXH).collect(),
+                s => s.split(',').map(|x| x.trim().parse().unwrap()).collect(),
+            };
+            w.drop_all(&order);
+            for v in finish(&mut w) {
+                println!("  VIOLATION-DETAIL property={} case={} {}", v.property, v.case, v.msg);
+                n += 1;
+            }
+            println!("replay finished: {} violation(s)", n);
+            std::process::exit(if n > 0 { 1 } else { 0 });
+        }
+        _ => {
+            eprintln!("usage: hmc explore|replay ...");
+            std::process::exit(2);
+        }
+    }
+}
